@@ -621,6 +621,86 @@ def check_parallel_lists(ctx):
     ctx.floor("R7", ngroups, 12, "record groups of parallel lists")
 
 
+def _check_line_iterator_scenario(ctx, lit_cls):
+    """The LineIterator class interpreted on a model file of four lines: constructed, entered, read, pushed back and
+    read again.  After every step the line returned and the counter are compared with what the documentation says:
+    the counter starts at 0, grows by one per line read, shrinks by one per line pushed back; lines pushed back are
+    read again, last pushed first, before the file is touched; the file's lines come in order; leaving closes it."""
+    from ..accessors import AccessorEval, Raised, Rec
+    from ..symarr import NotSymbolic
+
+    prog = ctx.prog
+    lines = ["L1\n", "L2\n", "L3\n", "L4\n"]
+    events = []
+
+    def open_stub(a, k):
+        fh = Rec(None)
+        it = iter(lines)
+        events.append(("open", list(a), dict(k)))
+
+        def nxt(a2, k2):
+            try:
+                return next(it)
+            except StopIteration:
+                raise Raised("StopIteration") from None
+
+        fh.fields["__next__"] = ("<function>", nxt)
+        fh.fields["readline"] = ("<function>", lambda a2, k2: next(it, ""))
+        fh.fields["close"] = ("<function>", lambda a2, k2: events.append(("close",)))
+        return fh
+
+    ev = AccessorEval(prog, lit_cls, limit=4000)
+    ev.module = lit_cls.module
+    ev.ext_stubs = {"builtins.open": open_stub}
+    steps = []
+    bad = None
+    try:
+        lit = Rec(lit_cls)
+        ev.call_method(lit, "__init__", ["FILE"], {})
+        entered = ev.call_method(lit, "__enter__", [], {}) if "__enter__" in lit_cls.methods else lit
+        if entered is not lit:
+            bad = "entering the context manager does not give the iterator itself"
+        if "__iter__" in lit_cls.methods and ev.call_method(lit, "__iter__", [], {}) is not lit:
+            bad = bad or "iter(lit) is not the iterator itself"
+        script = [("next", "L1\n", 1), ("next", "L2\n", 2), ("back", "L2\n", 1), ("back", "L1\n", 0), ("next", "L1\n", 1), ("next", "L2\n", 2), ("next", "L3\n", 3), ("back", "L3\n", 2), ("next", "L3\n", 3), ("next", "L4\n", 4)]
+        if bad is None and ev.get(lit, "lineno") != 0:
+            bad = f"the counter starts at {ev.get(lit, 'lineno')!r}, not at 0"
+        for op, line, want_no in script:
+            if bad:
+                break
+            if op == "next":
+                got = ev.call_method(lit, "__next__", [], {})
+                if got != line:
+                    bad = f"after {steps}: the next line is {got!r}, expected {line!r} (lines pushed back are read again, last pushed first, before the file)"
+            else:
+                ev.call_method(lit, "back", [line], {})
+            steps.append(op)
+            if bad is None and ev.get(lit, "lineno") != want_no:
+                bad = f"after {steps}: the counter is {ev.get(lit, 'lineno')!r}, expected {want_no} (one per line read, minus one per line pushed back)"
+        if bad is None:
+            try:
+                ev.call_method(lit, "__next__", [], {})
+                bad = "reading past the last line does not raise StopIteration"
+            except Raised as exc:
+                if exc.args[0] != "StopIteration":
+                    bad = f"reading past the last line raises {exc.args[0]}"
+        if bad is None and "__exit__" in lit_cls.methods:
+            ev.call_method(lit, "__exit__", [None, None, None], {})
+            if ("close",) not in events:
+                bad = "leaving the context manager does not close the file"
+        if bad is None and (len([e for e in events if e[0] == "open"]) != 1 or events[0][1][:1] != ["FILE"]):
+            bad = f"the file opened is {events[0][1] if events else None!r}, not the file name given"
+    except Raised as exc:
+        bad = f"after {steps}: raises {exc.args[0]}"
+    except NotSymbolic as exc:
+        raise AnalysisError(f"LineIterator is outside the evaluation whitelist: {exc}") from exc
+    nx = lit_cls.methods.get("__next__") or next(iter(lit_cls.methods.values()))
+    if bad:
+        ctx.violate("R6", f"LineIterator on a model file of four lines, {bad}", relpath=lit_cls.module.relpath, function=lit_cls.qualname, node=nx.node, construct=f"LineIterator scenario: {bad}"[:170])
+    else:
+        ctx.ok("R6", "LineIterator evaluated on a model file (10 reads / push-backs): the counter starts at 0 and follows every read and push-back, pushed-back lines come back last-in first-out before the file, the end raises StopIteration, leaving closes the file", f"{lit_cls.module.relpath}:{nx.lineno}")
+
+
 def check_line_counter(ctx):
     """R6: the line counter is incremented on every successful read and decremented on every push-back."""
     from ..cfg import EXIT, cfg_of
@@ -628,42 +708,7 @@ def check_line_counter(ctx):
     prog = ctx.prog
     ctx.rule("R6", "LineIterator counts every line read and every line pushed back exactly once", "error messages report a line number that drifts away from the last line read")
     lit_cls = prog.cls("iodata.utils.LineIterator")
-    for mname, op, want in (("__next__", ast.Add, "read"), ("back", ast.Sub, "push-back")):
-        m = lit_cls.methods.get(mname)
-        if m is None:
-            ctx.violate("R6", f"LineIterator.{mname} not found", relpath=lit_cls.module.relpath, function=lit_cls.qualname, construct=mname)
-            continue
-        cfg = cfg_of(m)
-        incs = [n for n in m.own_nodes() if isinstance(n, ast.AugAssign) and src_of(n.target) == "self.lineno" and isinstance(n.op, op) and isinstance(n.value, ast.Constant) and n.value.value == 1]
-        others = [n for n in m.own_nodes() if isinstance(n, (ast.AugAssign, ast.Assign)) and any(src_of(t) == "self.lineno" for t in (n.targets if isinstance(n, ast.Assign) else [n.target])) and n not in incs]
-        rets = [cfg.idx(n) for n in m.own_nodes() if isinstance(n, ast.Return)]
-        exits = rets + [a for a, lab in cfg.pred[EXIT] if lab != "return"]
-        if len(incs) == 1 and not others and exits and cfg.must_pass(exits, {cfg.idx(incs[0])}):
-            ctx.ok("R6", f"LineIterator.{mname}: every normal exit passes through exactly one `self.lineno {'+' if op is ast.Add else '-'}= 1` ({want})", f"{m.module.relpath}:{incs[0].lineno}")
-        else:
-            ctx.violate("R6", f"LineIterator.{mname}: a {want} can complete without changing lineno by exactly one (found {len(incs)} update(s), {len(others)} other write(s), or a path that bypasses it)", m, m.node, construct=f"{mname} lineno bookkeeping")
-    bk = lit_cls.methods.get("back")
-    if bk is not None:
-        okp = any(isinstance(n, ast.Call) and src_of(n.func) == "self.stack.append" and n.args and src_of(n.args[0]) == bk.posparams[1] for n in bk.own_nodes())
-        nx = lit_cls.methods.get("__next__")
-        okn = nx is not None and any(isinstance(n, ast.Call) and src_of(n.func) == "self.stack.pop" for n in nx.own_nodes())
-        if okp and okn:
-            ctx.ok("R6", "pushed-back lines are stacked and popped before the file is read again", f"{bk.module.relpath}:{bk.lineno}")
-        else:
-            ctx.violate("R6", "push-back does not stack the line / __next__ does not pop the stack first", bk, bk.node, construct="push-back stack")
-    init = lit_cls.methods.get("__init__")
-    def _zero_assign(fn):
-        return fn is not None and any(isinstance(n, ast.Assign) and src_of(n.targets[0]) == "self.lineno" and isinstance(n.value, ast.Constant) and n.value.value == 0 and not isinstance(n.value.value, bool) for n in fn.own_nodes())
-
-    def _other_assign(fn):
-        return fn is not None and any(isinstance(n, ast.Assign) and src_of(n.targets[0]) == "self.lineno" and not (isinstance(n.value, ast.Constant) and n.value.value == 0) for n in fn.own_nodes())
-
-    class_zero = any((isinstance(st, ast.Assign) and any(isinstance(t, ast.Name) and t.id == "lineno" for t in st.targets) and isinstance(st.value, ast.Constant) and st.value.value == 0) or (isinstance(st, ast.AnnAssign) and isinstance(st.target, ast.Name) and st.target.id == "lineno" and isinstance(st.value, ast.Constant) and st.value.value == 0) for st in lit_cls.node.body)
-    starts_zero = (_zero_assign(init) or _zero_assign(lit_cls.methods.get("__enter__")) or class_zero) and not _other_assign(init) and not _other_assign(lit_cls.methods.get("__enter__"))
-    if starts_zero:
-        ctx.ok("R6", "the counter starts at 0", f"{init.module.relpath}:{init.lineno}")
-    else:
-        ctx.violate("R6", "LineIterator.lineno does not start at 0", init, init.node if init else None, construct="lineno init")
+    _check_line_iterator_scenario(ctx, lit_cls)
     # nobody else writes the counter
     for f in prog.package_funcs():
         if f.cls is lit_cls:
